@@ -3,10 +3,10 @@ CONSTANTS
   P = 5
   MaxN = 3
   KeyVals = {1, 2}
-  MsgVals = {3}
+  MsgVals = {1, 3}
   WrongKeys = {4}
   WrongMsgs = {2}
-  Deltas = {1, 3, 4}
+  Deltas = {1, 2, 3, 4}
   SameModes = {FALSE}
   MaxTouched = 3
   GenWithRepeat = FALSE
